@@ -55,11 +55,15 @@ def classify_vmslot(line):
         return None
     toks = body.split(';')
     final = toks[-1]
+    if 'BROKEN' in final or '[' not in final or ']' not in final:
+        return None                                   # the links themselves are broken: not the recorded ghost-slot defects
     stream_part = final[final.index('[') + 1:final.index(']')]
     in_stream, kids = set(), []
     for ent in stream_part.split(','):
         if not ent: continue
         f = ent.split(':')
+        if len(f) < 6:
+            return None
         in_stream.add(f[0])
         kids += [k for k in f[5].split('.') if k]
         if f[4] != '-1': kids.append(f[4])                  # parents too: a ghost parent has the same cause
